@@ -1238,17 +1238,18 @@ def crypto_history(seed, nops=40):
             c = rng.random()
             data = rb(rng.choice(lens))
             if c < 0.45:
-                mech = rng.choice(["221", "256", "251", "261", "271"]); key = rng.choice(gens)
+                mech = rng.choice(["221", "256", "251", "261", "271", "211"]); key = rng.choice(gens)
             elif c < 0.6:
                 mech = "108a"; key = rng.choice(aes)
                 if rng.random() < 0.3: mech = "138"; key = rng.choice(des)
             elif c < 0.85:
-                mech = rng.choice(["1", "6", "46", "40", "41", "42"]); key = rprv
+                mech = rng.choice(["1", "6", "46", "40", "41", "42", "e:pss(220,1,20)", "43:pss(250,2,32)", "44:pss(260,3,48)", "45:pss(270,4,62)", "47:pss(255,5,0)", "d:pss(250,2,20)"]); key = rprv
                 if mech == "1": data = rb(rng.choice([0, 20, 35, 51, 117]))
+                if mech.startswith("d:"): data = rb(32)          # CKM_RSA_PKCS_PSS signs a hash value of the stated hash's length
             else:
                 mech = "1041"; key = eprv; data = rb(rng.choice([20, 32, 32, 48]))
             h.op(f"siginit @{k} {mech} @{key}")
-            if rng.random() < 0.5 or mech in ("1", "1041"):
+            if rng.random() < 0.5 or mech in ("1", "1041") or mech.startswith("d:"):
                 for _ in range(rng.choice([0, 0, 1, 2])): h.op(f"sign @{k} {data} {rng.choice(['n', '0', '5', '19'])}")
                 so = h.op(f"sign @{k} {data} 600")
             else:
@@ -1260,9 +1261,17 @@ def crypto_history(seed, nops=40):
             for variant in rng.sample(["same", "data", "sig", "sig"], 2):
                 h.op(f"verinit @{k} {mech} @{vkey}")
                 d2 = flip(rng, data) if variant == "data" else data
-                h.op(f"verrelay @{k} {d2} {so} {'flip' if variant == 'sig' else 'same'} {rng.choice(['single', 'multi']) if mech not in ('1', '1041') else 'single'} {rng.randrange(1 << 30)}")
+                h.op(f"verrelay @{k} {d2} {so} {'flip' if variant == 'sig' else 'same'} {rng.choice(['single', 'multi']) if (mech not in ('1', '1041') and not mech.startswith('d:')) else 'single'} {rng.randrange(1 << 30)}")
+        elif r < 0.80:      # RSA encryption with the public key, decryption of the result with the private key: the reference decrypts the token's ciphertext with d
+            mech = rng.choice(["1", "9:oaep(220,1,)", "3"])
+            n = rng.choice([0, 1, 20, 64, 86]) if mech != "3" else rng.choice([128, 128, 100, 1])
+            ptx = rb(n) if mech != "3" else ("00" + rb(n - 1) if n > 1 else "7f")
+            h.op(f"encinit @{k} {mech} @{rpub}")
+            eo = h.op(f"enc @{k} {ptx} 600")
+            h.op(f"decinit @{k} {mech} @{rprv}")
+            h.op(f"decrelay @{k} {eo} {'flip' if rng.random() < 0.2 else 'same'} single {rng.randrange(1 << 30)}")
         elif r < 0.9:       # digests
-            mech = rng.choice(["220", "255", "250", "260", "270"]); data = rb(rng.choice(lens + [200]))
+            mech = rng.choice(["220", "255", "250", "260", "270", "210"]); data = rb(rng.choice(lens + [200]))
             h.op(f"diginit @{k} {mech}")
             if rng.random() < 0.4:
                 for _ in range(rng.choice([0, 0, 1, 2])): h.op(f"digest @{k} {data} {rng.choice(['n', '0', '5', '19'])}")
